@@ -29,6 +29,12 @@ pub const NP_VALUES: &[Option<&str>] = &[
     Some(","),
     Some("*.other.test"),
     Some("other.test,x*"),
+    // `*` disables the proxies only as the whole value: as a member of a list it is a name that matches no host
+    Some("other.test,*"),
+    Some("*,other.test"),
+    Some("x.test, * ,y.test"),
+    // a blank in front of a leading dot
+    Some("other.test, .probe.test"),
 ];
 pub const PROBES: &[&str] = &["probe.test", "sub.probe.test", "PROBE.test"];
 
@@ -142,8 +148,8 @@ impl Property for C11 {
     const ID: &'static str = "C11";
     const RULE: &'static str = "Domain A (builder): hosts = all 1..3-label names over {a, b, ab} plus mixed-case, IPv4 and IPv6 literals; no-proxy lists of 0..3 entries over the same names plus \"\", leading dots, \
 upper case, surrounding blanks, IP fragments; scheme {http, https, ftp}; proxies for none/one/both schemes - lists of <= 2 entries enumerated exhaustively in the thorough tier. Domain B (environment): assignments of \
-{http_proxy, HTTP_PROXY, https_proxy, HTTPS_PROXY, all_proxy, ALL_PROXY} over {unset, empty, blank, valid http URL, valid https URL, socks5 URL, garbage} (all 7^6 = 117 649 in thorough) and of no_proxy / NO_PROXY over 17 values \
-each (all 289 pairs), observed through for_url on three probe hosts and both schemes; every probe is repeated with the explicit ports 80, 443, 8080, 65535 (the choice must not change). Oracle = the selection model. non-trivial = a no-proxy entry that is a proper suffix of / shares a suffix with the host, or >= 2 environment variables set";
+{http_proxy, HTTP_PROXY, https_proxy, HTTPS_PROXY, all_proxy, ALL_PROXY} over {unset, empty, blank, valid http URL, valid https URL, socks5 URL, garbage} (all 7^6 = 117 649 in thorough) and of no_proxy / NO_PROXY over 21 values \
+each (all 441 pairs), observed through for_url on three probe hosts and both schemes; every probe is repeated with the explicit ports 80, 443, 8080, 65535 (the choice must not change). Oracle = the selection model. non-trivial = a no-proxy entry that is a proper suffix of / shares a suffix with the host, or >= 2 environment variables set";
 
     fn assumptions() -> Vec<String> {
         vec![
